@@ -117,6 +117,46 @@ CLAIMS = {
   OTHER_NOTE, "DESIGN.md §4 C20"),
 }
 
+# Session-3 additions: (old fragment, new fragment) applied to the evaluated technique / text of a claim.
+def _amend(pid, field, old, new):
+    lvl, tech, text, note, ref = CLAIMS[pid]
+    if field == "tech":
+        assert old in tech, (pid, old[:40])
+        tech = tech.replace(old, new, 1)
+    else:
+        assert old in text, (pid, old[:40])
+        text = text.replace(old, new, 1)
+    CLAIMS[pid] = (lvl, tech, text, note, ref)
+
+_amend("C01", "tech", "dead-test detection, escape tables", "dead-test detection, escape tables, slot-forwarding completeness of binding-pattern traversals, exhaustive evaluation of parenthesis decisions over all pairs of precedence levels, sibling agreement of the member-suffix printers")
+_amend("C01", "text", "Decides twelve structural necessary conditions of JS behaviour preservation (R01.1-R01.12,", "Decides fifteen structural necessary conditions of JS behaviour preservation (R01.1-R01.15,")
+_amend("C01", "text", "parameters with effectful defaults are kept. Does not decide", "parameters with effectful defaults are kept, traversals of binding patterns reach every nested binding, parenthesis decisions depend on the two levels only through their comparison (operator exceptions live in the operator's printer; comma un-grouping uses the slot's own level), and every member suffix keeps the parentheses of an optional chain. Does not decide")
+_amend("C05", "tech", "must-pass-through on the CFG of the path emitter,", "must-pass-through and stipulated-branch path rules on the CFG of the path emitter, truth tables over comparison atoms, sibling agreement of start/end tag rewrites,")
+_amend("C05", "text", "Decides (R05.1-R05.4, DESIGN.md §4 C05):", "Decides (R05.1-R05.10, DESIGN.md §4 C05):")
+_amend("C05", "text", "One known finding (xml:space=\"preserve\" removed). Path geometry,", "Further: the smooth-curve reflection state is cleared by every command of another family and by closepath; start and end tags are renamed together; an exponent is only written into a plain integer; id/class/href values are not rewritten as numbers; a curve is replaced by a line only if a following smooth curve keeps its control point. Known findings: xml:space=\"preserve\" removed; degenerate curve to line before a smooth curve (cubic, quadratic). Path geometry,")
+_amend("C06", "tech", "reachability under the assumed option", "reachability under the assumed option, who-may-rewrite enumeration per token kind, constant evaluation of the reverse-entity tables, typestate of the in-PI flag")
+_amend("C06", "text", "Decides (R06.1-R06.4, DESIGN.md §4 C06):", "Decides (R06.1-R06.7, DESIGN.md §4 C06):")
+_amend("C06", "text", "decoded character references are re-escaped in text and attribute values. Entity/CDATA byte round trips and word joining across comments are not decided.", "decoded character references are re-escaped in text and attribute values, including references to white space that a parser would normalise away; only character data is ever rewritten (DOCTYPE, PIs and tags are written verbatim); omitSpace follows the data written last (no word joining after CDATA); the value-less words of a processing instruction get no `=`. CDATA byte round trips, `]]>` arising from `]]&gt;` and white space inside PI content are not decided.")
+_amend("C08", "tech", "constant-byte classification", "constant-byte classification, induction-variable direction of element-wise self-moves, kill/gen path rule for the dropped dot, bounded-before-use path rule for the precision parameter")
+_amend("C08", "text", "Decides two shape clauses only (R08.1, R08.2, DESIGN.md §4 C08):", "Decides five shape clauses only (R08.1-R08.5, DESIGN.md §4 C08):")
+_amend("C08", "text", "so they can never touch bytes outside the slice they were given. Value equality, rounding, `never longer` and panic-freedom are NOT decided", "so they can never touch bytes outside the slice they were given; digits are moved by copy() or by loops that walk against the shift; after the fraction is cut off the slice is not extended over the dot's byte unless that byte is overwritten (no result ends in `.`); the precision is bounded before it is added to an index (no overflow panic). Value equality, rounding in general, `never longer` and panic-freedom as a whole are NOT decided")
+_amend("C10", "tech", "limit-guard domination on the CFG", "limit-guard domination on the CFG, forward lower-bound dataflow for index expressions (attained-by-data bounds), reassign-before-reuse path rule for remembered positions")
+_amend("C10", "text", "Decides three structural clauses (R10.1-R10.3, DESIGN.md §4 C10):", "Decides five structural clauses (R10.1-R10.5, DESIGN.md §4 C10):")
+_amend("C10", "text", "is consistent with the strongest such test (134 accesses). Absence of panics,", "is consistent with the strongest such test (134 accesses); no index or slice bound can be driven below zero by the function's own arithmetic from a range key or search result (about 1400 index expressions); a remembered position is reassigned after the element it designates was deleted. Absence of panics,")
+_amend("C12", "text", "Content-Type overrides the path-extension guess before matching;", "the extension fallback is computed from the request PATH (RequestURI cut at `?`); Content-Type overrides the path-extension guess before matching;")
+_amend("C13", "tech", "SSA store/provenance enumeration,", "SSA store/provenance enumeration, backward origin analysis of parameter maps (interprocedural, parameters lifted to call sites),")
+_amend("C13", "text", "(R13.1-R13.6, DESIGN.md §4 C13):", "(R13.1-R13.7, DESIGN.md §4 C13):")
+_amend("C13", "text", "and no other stateful package-level variable exists. Flows", "and no other stateful package-level variable exists; the parameter map handed to a minifier or returned by Match never originates in memory that outlives the call (package-level variables, the registry, sync.Map / sync.Pool results). Flows")
+_amend("C14", "tech", "and of the pipe wrappers", "and of the pipe wrappers, discarded-result enumeration for writes to io.Writer parameters")
+_amend("C14", "text", "the writer/reader wrappers pass the error on (R14.1-R14.3, DESIGN.md §4 C14).", "the writer/reader wrappers pass the error on; outside the probing minifiers and their helpers no write to an io.Writer parameter drops its error (R14.1-R14.4, DESIGN.md §4 C14).")
+_amend("C16", "text", "Decides three structural clauses (R16.1-R16.3, DESIGN.md §4 C16):", "Decides four structural clauses (R16.1-R16.4, DESIGN.md §4 C16):")
+_amend("C16", "text", "and every option field is read. `Nothing else", "and every option field is read; nested minification (conditional comments, inline content) runs through the receiver's own options, never through the default-options wrapper. `Nothing else")
+_amend("C19", "tech", "(fallback rebinding, loop-exit and counter rules),", "(fallback rebinding, loop-exit and counter rules), evaluation of the separator guard against the registered JavaScript pattern over a universe of media types, structural protocol of the bundle reader, loop-variable address escape under the module's language version,")
+_amend("C19", "text", "Decides (R19.1-R19.7, DESIGN.md §4 C19):", "Decides (R19.1-R19.9, DESIGN.md §4 C19):")
+_amend("C19", "text", "the JS bundle separator is confined to the JS media type;", "the `;\\n` bundle separator is used for exactly the media types that select the JavaScript minifier; the bundle reader delivers the pending separator suffix, arms it only between files and takes files from the front; no pointer to a per-loop variable is stored (watch-mode task map);")
+_amend("C19", "text", "Destination computation over directory trees, sync copying and watch mode are not decided.", "Destination computation over directory trees and sync copying are not decided.")
+
+
 NOT_APPLICABLE = {
  "C18": "DataURI/Mediatype correctness is about decoded byte values and length comparisons between encodings; no structural clause separates a right "
         "from a wrong version (the structural neighbours are checked under C10 R10.1, C11 R11.1, C13 R13.4).",
